@@ -583,7 +583,8 @@ func checkSkipCondition(m *Model, r *RuleResult, info *types.Info, fd *ast.FuncD
 	ok := okShape && len(conds) == 1
 	if ok {
 		c := strings.ReplaceAll(conds[0], " ", "")
-		ok = strings.HasSuffix(c, "IsVirtual&&!layoutOpts.output.includeVirtual") || strings.HasPrefix(c, "!layoutOpts.output.includeVirtual&&")
+		ok = (strings.Contains(c, "IsVirtual&&!") && strings.HasSuffix(c, "includeVirtual") && strings.Count(c, "&&") == 1 && !strings.Contains(c, "||")) ||
+			(strings.HasPrefix(c, "!") && strings.Contains(c, "includeVirtual&&") && strings.HasSuffix(c, "IsVirtual") && strings.Count(c, "&&") == 1 && !strings.Contains(c, "||"))
 		if ok && !strings.Contains(c, nodeVar.Name()+".IsVirtual") {
 			ok = false
 		}
